@@ -282,6 +282,14 @@ class Opaque(object):
         self.tag, self.args = tag, args
 
 
+class Closure(object):
+    """closure value: body path + captured values (field i = capture i)"""
+    __slots__ = ("path", "fields")
+
+    def __init__(self, path, fields):
+        self.path, self.fields = path, list(fields)
+
+
 class It(object):
     """Iterator pipeline over the buffer: slice positions [idx, end) -> skip -> take -> enumerate."""
 
@@ -350,6 +358,9 @@ class State(object):
         self.len_lb2 = None
         self.steps = 0
         self.asserts = 0
+        self.frame = 0
+        self.frames = {0: self.locals}
+        self.nframes = 1
 
     def clone(self):
         import copy
@@ -369,6 +380,7 @@ class Interp(object):
         self.results = []       # finished paths: (state, return value)
         self.assert_sites = set()
         self.shift_sites = set()
+        self.line = None
 
     # ---- buffer bytes
     def byte_key(self, idx):
@@ -451,7 +463,8 @@ class Interp(object):
     def _get(self, st, loc):
         kind = loc[0]
         if kind == "local":
-            v = st.locals.get(loc[1], None)
+            frame = st.frames[loc[3]] if len(loc) > 3 and loc[3] in st.frames else st.locals
+            v = frame.get(loc[1], None)
             if v is None:
                 raise Undecided("read of an unassigned local _%d" % loc[1])
             for i in loc[2]:
@@ -469,7 +482,7 @@ class Interp(object):
         raise Undecided("unknown location kind")
 
     def _field(self, v, i):
-        if isinstance(v, (Tup, Adt)):
+        if isinstance(v, (Tup, Adt, Closure)):
             if i >= len(v.fields):
                 raise Undecided("field index out of range")
             return v.fields[i]
@@ -480,10 +493,11 @@ class Interp(object):
     def _set(self, st, loc, val):
         kind = loc[0]
         if kind == "local":
+            frame = st.frames[loc[3]] if len(loc) > 3 and loc[3] in st.frames else st.locals
             if not loc[2]:
-                st.locals[loc[1]] = val
+                frame[loc[1]] = val
                 return
-            v = st.locals.get(loc[1])
+            v = frame.get(loc[1])
             for i in loc[2][:-1]:
                 v = self._field(v, i)
             self._setfield(v, loc[2][-1], val)
@@ -519,7 +533,7 @@ class Interp(object):
                 loc = v.loc
             elif k == "field":
                 if loc[0] == "local":
-                    loc = ("local", loc[1], loc[2] + (p["i"],))
+                    loc = ("local", loc[1], loc[2] + (p["i"],)) + tuple(loc[3:])
                 elif loc[0] == "self":
                     loc = ("self", loc[1] + (p["i"],))
                 else:
@@ -774,7 +788,10 @@ class Interp(object):
                 return -x
             raise Undecided("unary %s on %s" % (o, type(x).__name__))
         if k == "ref":
-            return Ref(self.resolve(st, rv["place"]))
+            loc = self.resolve(st, rv["place"])
+            if loc[0] == "local" and len(loc) == 3:
+                loc = ("local", loc[1], loc[2], st.frame)
+            return Ref(loc)
         if k == "cast":
             x = self.operand(st, rv["op"])
             return self.cast(x, self.operand_ty(rv["op"]), rv.get("ty") or self.place_ty(dest_place))
@@ -791,6 +808,8 @@ class Interp(object):
                 return Adt(rv.get("path"), rv.get("variant", 0), rv.get("vname"), ops)
             if rv["agg"] == "array":
                 return list(ops)
+            if rv["agg"] == "closure":
+                return Closure(rv.get("path"), ops)
             raise Undecided("aggregate " + rv["agg"])
         if k == "len":
             v = self.read(st, rv["place"])
@@ -955,7 +974,122 @@ class Interp(object):
             if lin_parts(rg) is not None:
                 return Ref(self.index_loc(st, base.loc, rg))
             raise Undecided("index by an unmodelled value")
+        if c in ("core::iter::Iterator::fold", "<core::slice::Iter<'a, T> as core::iter::Iterator>::fold", "<core::slice::Iter<T> as core::iter::Iterator>::fold") \
+                and isinstance(args[0], It) and isinstance(args[2], Closure):
+            acc = args[1]
+            it = args[0]
+            n = 0
+            while True:
+                nx = self.it_next(st, it)
+                if nx.variant == 0:
+                    break
+                n += 1
+                if n > 64:
+                    raise Undecided("fold over more than 64 elements")
+                acc = self.exec_closure(st, args[2], [acc, nx.fields[0]])
+            return acc
+        if c in self.prog.fns and self.depth < 4:
+            return self.exec_fn(st, self.prog.fns[c], args)
         raise Undecided("call of %s" % c)
+
+    depth = 0
+
+    def exec_closure(self, st, clo, args):
+        f = self.prog.fns.get(clo.path)
+        if f is None:
+            raise Undecided("closure body %s is not available" % clo.path)
+        # body signature: (_1 = closure or &closure, _2.. = arguments)
+        a0 = clo
+        ty1 = f.rec["locals"][1] if len(f.rec["locals"]) > 1 else {}
+        if ty1.get("k") == "ref":
+            holder = ("local", -1 - self.depth, (), st.frame)
+            st.locals[-1 - self.depth] = clo
+            a0 = Ref(holder)
+        return self.exec_fn(st, f, [a0] + list(args))
+
+    def exec_fn(self, st, f, args):
+        """Interpret a crate-local callee on the caller's abstract state (no forks inside helpers)."""
+        if f.rec.get("argc", 0) != len(args):
+            raise Undecided("arity mismatch calling %s" % f.path)
+        saved = (self.blocks, self.ltys, self.f, st.locals)
+        saved_frame = st.frame
+        self.depth += 1
+        try:
+            self.blocks, self.ltys, self.f = f.rec["blocks"], f.rec["locals"], f
+            keep = {k: v for k, v in st.locals.items() if k < 0}
+            st.frames[st.frame] = saved[3]
+            st.frame = st.nframes
+            st.nframes += 1
+            st.locals = dict(keep)
+            st.frames[st.frame] = st.locals
+            for i, a in enumerate(args):
+                st.locals[i + 1] = a
+            b = 0
+            steps = 0
+            while True:
+                steps += 1
+                if steps > 2000:
+                    raise Undecided("helper %s does not terminate within 2000 blocks" % f.path)
+                blk = self.blocks[b]
+                for s_ in blk["stmts"]:
+                    if s_["k"] != "assign":
+                        continue
+                    self.line = s_.get("line")
+                    v = self.rvalue(st, s_["rv"], s_["place"])
+                    self._set(st, self.resolve(st, s_["place"]), v)
+                t = blk["term"]
+                k = t["k"]
+                if k == "goto":
+                    b = t["target"]
+                elif k == "return":
+                    return st.locals.get(0)
+                elif k == "assert":
+                    cnd = self.operand(st, t["cond"])
+                    st.asserts += 1
+                    self.assert_sites.add((t.get("line"), t["kind"]))
+                    if isinstance(cnd, UBool):
+                        dd = self.decide(st, cnd)
+                        if dd is None:
+                            raise Undecided("assert %s in a helper depends on the buffer length" % t["kind"])
+                        cnd = 1 if dd else 0
+                    if not isinstance(cnd, int):
+                        raise Undecided("assert %s on a non-constant" % t["kind"])
+                    if bool(cnd) != bool(t["expected"]):
+                        raise Panic("%s" % t["kind"])
+                    b = t["target"]
+                elif k == "switch":
+                    d = self.operand(st, t["discr"])
+                    if isinstance(d, UBool):
+                        dd = self.decide(st, d)
+                        d = None if dd is None else (1 if dd else 0)
+                    if isinstance(d, BV):
+                        d = d.concrete()
+                    if not isinstance(d, int):
+                        raise Undecided("a helper branches on a value that is unknown on this path")
+                    tgt = None
+                    for v_, tb in t["arms"]:
+                        if v_ == d:
+                            tgt = tb
+                    b = tgt if tgt is not None else t["otherwise"]
+                elif k == "call":
+                    r = self.call(st, t)
+                    if isinstance(r, tuple) and r and r[0] == "fork-option":
+                        raise Undecided("a helper performs a length-dependent Option operation")
+                    self._set(st, self.resolve(st, t["dest"]), r)
+                    if t["target"] is None:
+                        raise Undecided("diverging call")
+                    b = t["target"]
+                elif k == "drop":
+                    b = t["target"]
+                else:
+                    raise Undecided("terminator %s in a helper" % k)
+        finally:
+            self.depth -= 1
+            self.blocks, self.ltys, self.f = saved[0], saved[1], saved[2]
+            st.locals = saved[3]
+            if st.frame != saved_frame:
+                st.frames.pop(st.frame, None)
+                st.frame = saved_frame
 
     def it_next(self, st, it):
         if it.take is not None:
